@@ -432,6 +432,7 @@ doTranslate(int back, char **tok, int ntok) {
 			printf("-");
 	}
 	if (argmask & 128) {
+		if (!ret) rulesLen = 0; /* a failing call does not report applied rules */
 		printf(" rules=");
 		if (rulesLen <= 0) printf(".");
 		for (i = 0; i < rulesLen && i < 512; i++) {
